@@ -22,7 +22,7 @@ func main() {
 	}
 	switch os.Args[1] {
 	case "C06":
-		if os.Getenv("VERIF_PHASE") == "conc" {
+		if ph := os.Getenv("VERIF_PHASE"); ph == "conc" || ph == "race" {
 			runC06Conc(ev.Parse("model_checking"))
 		}
 		runC06(ev.Parse("model_checking"))
